@@ -242,6 +242,15 @@ def _ladder(job):
     from ..ladder import pairs
     ps = list(pairs())
     n = len(job["shape"])
+    # pairs that already pass but sit just below the next label's threshold (the status is computed for the returned colour)
+    from ..ladder import NEAR_THRESHOLD
+    for t, b in NEAR_THRESHOLD:
+        for large in (True, False):
+            d = dict(mode=1, very=False)
+            for i in range(n):
+                d.update({"t%dr" % i: t[0], "t%dg" % i: t[1], "t%db" % i: t[2], "b%dr" % i: b[0], "b%dg" % i: b[1], "b%db" % i: b[2],
+                          "large%d" % i: large, "bad%d" % i: 300})
+            yield d
     # repeated colours with different sizes first (state carried from one entry to the next shows up there)
     for t, b in ps[::5]:
         for mode in (1, 0):
